@@ -36,8 +36,8 @@ type recallSummary struct {
 	Adds     int      `json:"adds"`
 	Deletes  int      `json:"deletes"`
 	// live records that read back differently (or not at all) after the restart
-	RestartLost int `json:"restart_lost"`
-	Error    string   `json:"error,omitempty"`
+	RestartLost int    `json:"restart_lost"`
+	Error       string `json:"error,omitempty"`
 }
 
 type tracer struct {
